@@ -176,6 +176,16 @@ CHECKS = {
             'Structural equality ignores positions / annotation pseudo-field / operator singletons; markers = site numbers of '
             'environment calls.',
             'DESIGN.md 2/C17'),
+    'C18': ('exploration',
+            'exhaustive enumeration of expression shapes x statement positions x configurations; transformed code executed against the original with fully observable operands',
+            '26 expression forms (strict and lazy) with one nested form at every operand position (thorough: depth 3), placed in 21 '
+            'statement positions, under the default and 6 edge-pattern configurations (~57k statements quick): rejected shapes must '
+            'raise ValueError; accepted ones must compile, keep temporaries distinct, be in A-normal form (default configuration) '
+            'and, executed on 5 truth patterns with value objects that log every operation, produce the same ordered effect log and '
+            'result as the original.',
+            'Known finding (one root cause, 4 shape classes): post-order hoisting reorders operands; the text-comparing ANF tests pin '
+            'that numbering, so it cannot be repaired without editing tests. Shapes containing a lazy form are never downgraded.',
+            'DESIGN.md 2/C18'),
     'C20': ('exploration',
             'complete enumeration of the finite option space (1024 values, 1024^2 pairs) against a reference tuple model',
             'The whole configuration space is enumerated (exhaustive: true): AST round trip, eq/hash over all pairs, '
